@@ -10,7 +10,7 @@ EXPLANATION = (
     "calculator was constructed with, and nothing writes those attributes in between (R2); the conversions back into "
     "a builder (IntoModePerformance / IntoPerformance / From for MapOrAttrs, 32 impls + 8 enum arms) pass `attrs` resp. "
     "`attrs.difficulty` through untouched, the 12 map-to-builder conversions hand the map over as given (no conversion "
-    "before the mods are known) and from_map_or_attrs stores its argument (R3). That the two paths return "
+    "before the mods are known) and from_map_or_attrs stores its argument (R3); the map/attributes slot of a builder is never moved out with mem::take/replace/swap and an Attrs literal holds handed-in or computed attributes only (R4); no difficulty entry point returns attributes that did not go through the mode's calculation, e.g. Default::default() on an early exit (R5). That the two paths return "
     "equal numbers is arithmetic plus the caller's obligation to repeat the settings: NOT decided.")
 
 
@@ -200,6 +200,8 @@ def run(ctx):
         m = prov.project_field(rv, 'map_or_attrs')
         ctx.require(as_param_path(m, through_calls=False) == (1, ()), 'C04-R3', '%s:from_map_or_attrs' % mode, 'stores its argument as map_or_attrs', f.where(),
                     bad='%s stores `%s`' % (f.path, prov.show(m, maxdepth=3)))
+    r4_slot_replacement(ctx, F)
+    r5_no_default_attributes(ctx, F)
     ctx.not_decided('numerical equality of the result started from attributes and the result started from the map')
 
 
@@ -274,3 +276,74 @@ def helper_sites(F, f, mode):
 
 def untouched_attrs(v):
     return not any(n[0] in ('update', 'binop', 'unop') for n in prov.walk(v, limit=600))
+
+
+# ---- R4: the map / attributes slot of a builder is replaced only by attributes computed from the map it held
+def r4_slot_replacement(ctx, F):
+    """`generate_state` swaps `Map(..)` for `Attrs(<computed>)` through MapOrAttrs::insert_attrs.  Anything else that empties or overwrites the slot —
+    mem::take / mem::replace / mem::swap on a MapOrAttrs, or an `Attrs(..)` literal that is not insert_attrs' own parameter — can leave a builder that
+    answers from placeholder attributes after a failed or interrupted first call."""
+    n = 0
+    for fn in F.fns:
+        P = None
+        for bi, t in fn.calls():
+            f = t['func']
+            if f.get('name') in ('replace', 'take', 'swap') and (f.get('path') or '').startswith(('core::mem::', 'std::mem::')) and \
+                    any('MapOrAttrs' in str(x) for x in (f.get('targs') or []) + (f.get('dargs') or [])):
+                ctx.violation('C04-R4', 'slot:%s:%s' % (fn.path, f.get('name')), '%s moves the map / attributes slot out with mem::%s: between that and the moment computed attributes are '
+                              'stored the builder holds a placeholder — an early return (`?` on a ConvertError) leaves it there, and the next generate_state() / calculate() '
+                              'answers from it instead of repeating the error' % (fn.path, f.get('name')), fn.where(t.get('ln')))
+        for bi, si, s_ in fn.assigns():
+            rv = s_['rv']
+            if rv['k'] == 'agg' and rv.get('ak') == 'adt' and (rv.get('adt') or '').endswith('MapOrAttrs') and rv.get('variant') == 'Attrs':
+                n += 1
+                P = P or prov.prov_of(fn)
+                v = P.operand(rv['ops'][0], bi, si)
+                src = as_param_path(v, through_calls=False)
+                computed = any(x[0] == 'call' and x[1].get('name') in ('calculate', 'calculate_for_mode', 'difficulty') for x in prov.walk(v, limit=200))
+                ok = src is not None or computed or fn.impl_trait in ('std::clone::Clone', 'std::convert::From')
+                ctx.require(ok, 'C04-R4', 'attrs-literal:%s' % fn.path, '%s wraps %s into MapOrAttrs::Attrs' % (fn.path, 'its parameter' if src is not None else 'computed attributes'), fn.where(s_.get('ln')),
+                            bad='%s builds MapOrAttrs::Attrs(`%s`): attributes that are neither handed in nor computed from the map take the place of the map' % (fn.path, prov.show(v, maxdepth=3)))
+    ctx.floor('C04-R4', n, 1, 'MapOrAttrs::Attrs literals (insert_attrs, conversions)')
+
+
+# ---- R5: a difficulty entry point never answers with default attributes
+def r5_no_default_attributes(ctx, F, rule='C04-R5'):
+    """every value the one-shot difficulty entry points return carries the mode's calculation; a `Default::default()` alternative (an early exit for empty or
+    one-object inputs) reports AR / HP / hit windows / counts of 0 where the attribute path and the performance path compute the real ones"""
+    entries_ = [('any::difficulty::Difficulty::calculate', None)] + [('%s::difficulty::difficulty' % m, m) for m in MODES]
+    n = 0
+    for path, mode in entries_:
+        f = F.fn(path)
+        if f is None:
+            ctx.violation(rule, 'anchor-missing:' + path, 'not found')
+            continue
+        ctx.saw(f)
+        rv = prov.prov_of(f).return_value()
+
+        def alts(v, depth=0):
+            v = prov.strip(v, names={'expect', 'unwrap'})
+            if v[0] == 'phi' and depth < 4:
+                out = []
+                for a in v[1]:
+                    out += alts(a, depth + 1)
+                return out
+            if v[0] == 'agg' and v[1] == 'adt' and v[3] in ('Ok', 'Osu', 'Taiko', 'Catch', 'Mania') and '0' in v[4] and depth < 4:
+                return alts(v[4]['0'], depth + 1)
+            return [v]
+        bad = []
+        for a in alts(rv):
+            a = prov.strip(a, names=set())
+            if a[0] == 'agg' and a[3] == 'Err':
+                continue
+            if a[0] == 'call' and a[1].get('name') in ('from_residual',):
+                continue
+            n += 1
+            is_default = (a[0] == 'call' and a[1].get('name') == 'default') or (a[0] == 'call' and (a[1].get('trait') or '').endswith('Default'))
+            carries = any(x[0] == 'call' and (x[1].get('name') in ('calculate', 'difficulty', 'eval', 'calculate_for_mode')) and x[1].get('local') for x in prov.walk(a, limit=600))
+            if is_default or not carries:
+                bad.append(prov.show(a, maxdepth=2)[:80])
+        ctx.require(not bad, rule, 'entry:' + path, '%s: every returned value comes from the mode\'s calculation' % path, f.where(),
+                    bad='%s can return `%s` — attributes that did not go through the calculation (AR, HP, hit windows, counts all 0): for that input the attribute path and the map path of a '
+                        'performance calculation disagree, and so does the builder' % (path, '` / `'.join(bad)))
+    ctx.floor(rule, n, 5, 'returned alternatives of the difficulty entry points')
